@@ -63,6 +63,11 @@ def _units():
         us.append(Unit(f"C13_imix_g{g}", "harness/C13_imix.cpp", defs=[f"-DC13_GRP={g}", "-fconstexpr-ops-limit=1000000000"], flavours=_FL2, shards=_SH))
     # to_chars / from_chars / to_integer for short, long, long long text (limits of the remaining signed types)
     us.append(Unit("C13_misc_g6", "harness/C13_misc.cpp", defs=["-DC13_GRP=6"], flavours=_FL2, shards=_SH))
+    # buffers: the complete char_traits interface for five character types (move with overlap in both directions, counted
+    # members on unterminated exact-size arrays), copies within one buffer for char / int / a non-trivially-copyable struct,
+    # writers into destinations of exactly the required size (from_integer, to_chars, to_string, strcpy family, algorithms)
+    for g in range(3):
+        us.append(Unit(f"C13_buf_g{g}", "harness/C13_buf.cpp", defs=[f"-DC13_GRP={g}", "-fconstexpr-ops-limit=1000000000"], flavours=_FL3 if g == 2 else _FL2, shards=_SH))
     return us
 
 
